@@ -1,23 +1,23 @@
 CONSTANTS
   Areas <- AllAreas
   Wide4 <- MCEmpty
-  Sweep4 <- MCSim4
-  Base4 <- MCSim4
-  Net4 <- MCSim4
+  Sweep4 <- MCMicro4
+  Base4 <- MCMicro4
+  Net4 <- MCMicro4
   Flip4 <- MCMicroFlip
-  Cidr4B <- MCMicro4
-  Sweep6 <- MCSim6
-  Base6 <- MCSim6
+  Cidr4B <- MCEmpty
+  Sweep6 <- MCMicro6
+  Base6 <- MCMicro6
   Net6 <- MCMicro6
   Flip6 <- MCMicroFlip
-  Cidr6B <- MCMicro6
-  Rich6 <- MCSim6
+  Cidr6B <- MCEmpty
+  Rich6 <- MCEmpty
   Macs <- MCMicroMac
-  RichMacs <- MCMicroMac
+  RichMacs <- MCEmpty
   Dpids <- MCMicroDpid
   DpidsRT <- MCMicroDpid
   Remake = TRUE
-  D = 12
+  D = 7
 INIT Init
 NEXT Next
 INVARIANT Export
